@@ -53,8 +53,6 @@ class Ctx:
 
     def cleanup(self):
         shutil.rmtree(self.scratch, ignore_errors=True)
-        for d in glob.glob("/tmp/tlc-*") + glob.glob("/tmp/SANY*"):
-            shutil.rmtree(d, ignore_errors=True)
 
     def dir(self, name):
         d = os.path.join(self.scratch, name)
@@ -108,7 +106,11 @@ def patch_cfg(path, consts):
 
 def run_tlc(cx, d, module, cfg, workers=1, timeout=1800, dfs=False, extra=None, heap=None):
     env = dict(os.environ)
-    opts = []
+    # TLC unpacks its standard modules into java.io.tmpdir: a private one per run, so that concurrent
+    # checks (and their clean-up) cannot disturb each other
+    jtmp = os.path.join(d, "jtmp")
+    os.makedirs(jtmp, exist_ok=True)
+    opts = ["-Djava.io.tmpdir=" + jtmp]
     if dfs:
         opts.append(DFS)
     if heap:
@@ -318,10 +320,15 @@ def validate_single(cx, trace_lines, trace_module, trace_cfg=None, tag="single")
     d = spec_dir(cx, "tv1-%s-%d" % (tag, int(time.time() * 1000) % 1000000))
     with open(os.path.join(d, "trace.ndjson"), "w") as f:
         f.write("\n".join(trace_lines) + "\n")
-    r = run_tlc(cx, d, trace_module, trace_cfg, workers=1, dfs=True, timeout=600)
-    out = r["out"]
-    ok = "No error has been found" in out and "REJECTED" not in out
-    if not ok and "REJECTED" not in out:
+    for attempt in range(3):
+        r = run_tlc(cx, d, trace_module, trace_cfg, workers=1, dfs=True, timeout=600)
+        out = r["out"]
+        ok = "No error has been found" in out and "REJECTED" not in out
+        # a rejection is only what the acceptance postcondition itself reports
+        if ok or re.search(r'"REJECTED at line", (\d+), "of", (\d+)', out):
+            break
+        time.sleep(2)
+    else:
         raise Machinery("trace validation failed without a verdict:\n" + tail_of(out))
     shutil.rmtree(d, ignore_errors=True)
     return ok, tail_of(out, 80)
